@@ -1607,5 +1607,9 @@ func TestVerifC11(t *testing.T) {
 	kit.Run(t, "C11", "idle-restart", kit.N(600, 9000), lab(runIdleRestart))
 	kit.Run(t, "C11", "raw-stress", kit.N(400, 6000), lab(runRaw))
 	kit.Run(t, "C11", "sqlx-bulkinserter", kit.N(8, 64), lab(runSQL))
+	kit.Run(t, "C11", "panic-followup", kit.N(500, 8000), lab(func(c *kit.Case) { runPanicFollowup(c, "periodical") }))
+	kit.Run(t, "C11", "panic-followup-bulk", kit.N(500, 8000), lab(func(c *kit.Case) { runPanicFollowup(c, "bulk") }))
+	kit.Run(t, "C11", "panic-followup-chunk", kit.N(500, 8000), lab(func(c *kit.Case) { runPanicFollowup(c, "chunk") }))
+	kit.Run(t, "C11", "sqlx-faults", kit.N(24, 480), lab(runSQLFaults))
 	kit.End()
 }
